@@ -13,12 +13,12 @@ PLAN = {
     "level": "model_checking",
     "manifest": {
         "technique": "Kani/CBMC bounded model checking of the real Key::{eq,cmp,hash,get_hash,clone,constructors} (label count <= 3 and = 8, label/name content from a 5-entry table incl. repeated names, repeated labels, empty and non-ASCII strings) + rely/guarantee stubs of the std atomics for the get_hash() memo",
-        "text": "On the real code compiled by Kani: (1) a == b <=> a.cmp(b) == Equal, symmetry/duality, reflexivity, transitivity and antisymmetry on triples, a == b => identical sequence of Hasher::write* calls (recording hasher), label-order independence for pairwise distinct names -- all for keys whose labels are chosen by symbolic indices from a small table, label count <= 2 (quick) / = 3 and = 8 (thorough); (2) construction-path independence: each of 11 construction paths (from_parts with owned / Arc strings, from_static_labels, from_name + with_extra_labels, split with_extra_labels, clone before/after memoisation, From<(N,L)>, IntoLabels for Iter, into_parts round trip, with_extra_labels(empty)) yields byte-identical name and label list, a memo that satisfies hashed => hash == H(name, labels), and (thorough) ==/cmp/Hash agreement with the all-static key, on a fixed set of concrete label lists; (3) get_hash() under arbitrary interference by other threads running the same first-use code returns the deterministic hash, publishes hash before hashed, and a racing Key::clone never carries hashed == true with a stale hash (loop-free => all SC interleavings).  Everything decisive for (1)-(2) is bounded => model_checking, not proof.  KNOWN RESULT: obligation c03_eq_iff_cmp fails on the unmodified tree (2 labels with the same name: eq is multiset equality, cmp stable-sorts by label name only); see proposed_fix.diff.",
-        "note": "Bounds: label count <= 3 and exactly 8 (one layout family), 5-entry label table, 3 key names, strings <= 2 bytes; triples only for exactly 1 or 2 labels. AHash itself is executed only on concrete static keys (c03_get_hash_real); elsewhere the hasher is swapped for a recorder (key_hasher_impl is generic in the hasher). Path harnesses use concrete label content (the heap-backed Vec<Label> paths exceed CBMC's memory with symbolic content); that eq/cmp/hash depend on content only follows from Cow's fields being private to cow.rs plus property C14. SC atomics assumed; Hashable for Key (metrics-util) is checked on one concrete key (thorough tier).",
+        "text": "On the real code compiled by Kani: (1) a == b <=> a.cmp(b) == Equal, symmetry/duality, reflexivity, transitivity and antisymmetry on triples, a == b => identical sequence of Hasher::write* calls (recording hasher), label-order independence for pairwise distinct names -- all for keys whose labels are chosen by symbolic indices from a small table, label count <= 2 (quick) / = 3 (thorough); for 8 labels (the Vec arms) only three concrete key pairs; (2) construction-path independence: each of 11 construction paths (from_parts with owned / Arc strings, from_static_labels, from_name + with_extra_labels, split with_extra_labels, clone before/after memoisation, From<(N,L)>, IntoLabels for Iter, into_parts round trip, with_extra_labels(empty)) yields byte-identical name and label list, a memo that satisfies hashed => hash == H(name, labels), and (thorough) ==/cmp/Hash agreement with the all-static key, on a fixed set of concrete label lists; (3) get_hash() under arbitrary interference by other threads running the same first-use code returns the deterministic hash, publishes hash before hashed, and a racing Key::clone never carries hashed == true with a stale hash (loop-free => all SC interleavings).  Everything decisive for (1)-(2) is bounded => model_checking, not proof.  KNOWN RESULT: obligation c03_eq_iff_cmp fails on the unmodified tree (2 labels with the same name: eq is multiset equality, cmp stable-sorts by label name only); see proposed_fix.diff.",
+        "note": "Bounds: label count <= 3 symbolic content; exactly 8 labels only as three concrete pairs; 5-entry label table, 3 key names, strings <= 2 bytes; triples only for exactly 1 or 2 labels. AHash itself is executed only on concrete static keys (c03_get_hash_real); elsewhere the hasher is swapped for a recorder (key_hasher_impl is generic in the hasher). Path harnesses use concrete label content (the heap-backed Vec<Label> paths exceed CBMC's memory with symbolic content); that eq/cmp/hash depend on content only follows from Cow's fields being private to cow.rs plus property C14. SC atomics assumed; Hashable for Key (metrics-util) is checked on one concrete key (thorough tier).",
     },
     "min_obligations": {"quick": 2, "thorough": 2},
     "assumptions": [
-        "bounded: " + T + "; label count <= 2 (quick), = 3 and = 8 (thorough); nothing is claimed for other label counts or other strings",
+        "bounded: " + T + "; label count <= 2 (quick), = 3 (thorough); 8 labels: three concrete key pairs only (one pair costs CBMC ~3 min / 5 GB); nothing is claimed for other label counts or other strings",
         "Hash output is observed as the exact sequence of Hasher::write/write_u8/write_usize calls made into a recording hasher; equal sequences give equal output for every deterministic Hasher (KeyHasher::default() = AHasher with fixed keys, default-features = false)",
         STUB + " in the c03_paths_* harnesses (AHash on symbolic or heap data exceeds 12 GB in CBMC); the real AHash is run only on concrete static keys in c03_get_hash_real",
         "construction-path harnesses use concrete label content (" + LISTS + "); eq/cmp/hash cannot observe how a Cow is stored because Cow's fields are private to cow.rs (Rust privacy) and Cow reads back its content exactly (property C14)",
@@ -59,7 +59,9 @@ PLAN = {
             H("c03_symmetry_n3", "== symmetric, cmp dual", bound="exactly 3 labels each; " + T, covers=2, tier="thorough", timeout=900),
             H("c03_label_order_n3", "pairwise distinct names => every permutation of 3 labels gives an equal key", bound="3 labels, 5 non-identity permutations; " + T, covers=1, tier="thorough", timeout=900),
             H("c03_order_triples_names", "order axioms on triples whose key names differ", bound="three keys, exactly 1 label each; " + T, covers=2, tier="thorough", timeout=900),
-            H("c03_vec_path_n8", "the n >= 8 (Vec) arms: eq <=> cmp Equal, cmp dual, eq => same Hash stream, layout independence for distinct names", bound="8 labels: 6 fixed + 2 slots from {a=1,a=2,b=1}; second key in 3 layouts (same / reversed / rotated)", covers=2, tier="thorough", timeout=900),
+            H("c03_vec_path_n8_distinct", "the n >= 8 (Vec) arms: distinct names, reversed label order => ==, cmp Equal (dual), same Hash stream", bound="ONE concrete pair of 8-label keys", tier="thorough", timeout=900),
+            H("c03_vec_path_n8_repeated", "the n >= 8 arms: repeated name in the opposite relative order => !=, cmp != Equal (dual), different Hash stream", bound="ONE concrete pair of 8-label keys", tier="thorough", timeout=900),
+            H("c03_vec_path_n8_unequal", "the n >= 8 arms: one value differs, rotated order => !=, cmp != Equal (dual)", bound="ONE concrete pair of 8-label keys", tier="thorough", timeout=900),
             H("c03_paths_a", "paths 0-3 end to end: ==, cmp Equal, same Hash stream, same get_hash() as the all-static key", bound="concrete key e'[a=2,a=1]; " + STUB, replay=False, covers=2, sub="stubbed", tier="thorough", timeout=900),
             H("c03_paths_b", "paths 4-7 end to end", bound="concrete key e'[a=2,a=1]; " + STUB, replay=False, covers=2, sub="stubbed", tier="thorough", timeout=900),
             H("c03_paths_c", "paths 8-10 (IntoLabels for Iter, into_parts round trip, with_extra_labels(empty)) end to end", bound="concrete key e'[a=2,a=1]; " + STUB, replay=False, covers=2, sub="stubbed", tier="thorough", timeout=900),
@@ -67,7 +69,8 @@ PLAN = {
             H("c03_paths_n2_distinct", "all 11 paths: content + memo invariant", bound="concrete key k[b=1,''='']; " + STUB, replay=False, covers=2, sub="stubbed", tier="thorough", timeout=900),
             H("c03_paths_n3_a", "paths 0-3: content + memo invariant, 3 labels", bound="concrete keys k[a=1,a=1,b=1], ''[e'=e',a=2,''='']; " + STUB, replay=False, covers=2, sub="stubbed", tier="thorough", timeout=900),
             H("c03_paths_n3_b", "paths 5-7: content + memo invariant, 3 labels", bound="concrete keys k[a=1,a=1,b=1], ''[e'=e',a=2,''='']; " + STUB, replay=False, covers=2, sub="stubbed", tier="thorough", timeout=900),
-            H("c03_paths_n8_a", "paths 0-3: content + memo invariant, 8 labels (Vec arm of key_hasher_impl)", bound="one concrete 8-label key with repeats; " + STUB, replay=False, covers=2, sub="stubbed", tier="thorough", timeout=900),
+            H("c03_paths_n8_c", "paths 2-3 (from_static_labels, from_name+with_extra_labels): content + memo invariant, 8 labels", bound="one concrete 8-label key with repeats; " + STUB, replay=False, covers=2, sub="stubbed", tier="thorough", timeout=900),
+            H("c03_paths_n8_a", "path 0 (from_parts, owned strings): content + memo invariant, 8 labels (Vec arm of key_hasher_impl)", bound="one concrete 8-label key with repeats; " + STUB, replay=False, covers=2, sub="stubbed", tier="thorough", timeout=900),
             H("c03_paths_n8_b", "paths 5-6 (clone): content + memo invariant, 8 labels", bound="one concrete 8-label key with repeats; " + STUB, replay=False, covers=2, sub="stubbed", tier="thorough", timeout=900),
         ],
     }, {
